@@ -26,6 +26,7 @@ type fsStats struct {
 	files, dirs, symlinks, emptyDirs, emptyFiles int
 	symKinds                                     map[string]bool
 	depth                                        int
+	specialPerms                                 int
 }
 
 var fsNames = []string{"a", "b.txt", "with space", "ünïcödé", "日本語", "%41", "0", "07", "FF", "0Aname", "UPPER", "upper", ".hidden", "..two", "tab\tname", "x-😀", "trailing.", "-dash", "~tilde", "a%2Fb"}
@@ -67,12 +68,21 @@ func makeFSTree(r *rand.Rand, dir string, depth int, st *fsStats, budget *int) {
 			if err := os.WriteFile(p, content, 0o644); err != nil {
 				panic(err)
 			}
+			if r.Intn(5) == 0 {
+				// setuid / setgid / sticky, unusual permission sets
+				os.Chmod(p, []os.FileMode{0o755 | os.ModeSetuid, 0o644 | os.ModeSetgid, 0o600 | os.ModeSticky, 0o000, 0o777}[r.Intn(5)])
+				st.specialPerms++
+			}
 			st.files++
 		case k < 7 && depth < 3:
 			if err := os.Mkdir(p, 0o755); err != nil {
 				panic(err)
 			}
 			st.dirs++
+			if r.Intn(4) == 0 {
+				os.Chmod(p, []os.FileMode{0o2775 &^ 0o2000 | os.ModeSetgid, 0o777 | os.ModeSticky, 0o700, 0o755 | os.ModeSetuid}[r.Intn(4)])
+				st.specialPerms++
+			}
 			before := *budget
 			makeFSTree(r, p, depth+1, st, budget)
 			if before == *budget {
@@ -250,6 +260,7 @@ func TestC18(t *testing.T) {
 				return
 			}
 			c.Count("trees", 1)
+			c.Count("special_permission_entries", int64(stt.specialPerms))
 			compareFS(c, st, st.LinkSystem(false), linkCid(l), root)
 			kinds := make([]string, 0)
 			for k := range stt.symKinds {
@@ -360,7 +371,24 @@ func TestC18(t *testing.T) {
 			}
 			c.Count("crafted_deep_names", int64(crafted))
 			st := store.New()
+			// a large directory must not need one open file per entry: the import runs with the soft
+			// descriptor limit lowered to what is open now + 120
+			var lim syscall.Rlimit
+			lowered := false
+			if err := syscall.Getrlimit(syscall.RLIMIT_NOFILE, &lim); err == nil {
+				if fds, err := os.ReadDir("/proc/self/fd"); err == nil {
+					low := lim
+					low.Cur = uint64(len(fds) + 120)
+					if low.Cur < lim.Cur && syscall.Setrlimit(syscall.RLIMIT_NOFILE, &low) == nil {
+						lowered = true
+						c.Count("imports_under_low_fd_limit", 1)
+					}
+				}
+			}
 			l, _, err := builder.BuildUnixFSRecursive(root, st.LinkSystem(false))
+			if lowered {
+				syscall.Setrlimit(syscall.RLIMIT_NOFILE, &lim)
+			}
 			if err != nil {
 				c.Violation("C18|import-error", "directory of %d entries: %v", n, err)
 				return
